@@ -30,10 +30,13 @@ def eval_chunk(chunk):
     builders = _builders()
     viol = []
     st = O.new_stats()
+    import time
+    t0 = time.process_time()
     for desc in chunk:
         case = builders[desc[0]](desc)
         case.desc = desc
         viol.extend(O.evaluate(case, st))
+    st['cpu_s'] = time.process_time() - t0
     return viol, st
 
 
@@ -72,6 +75,7 @@ def run(chk):
             chk.cov['exhaustive'] = False
             continue
         before = chk.cov.get('evaluations', 0)
+        cpu_before = chk.cov.get('cpu_s', 0)
         chunk = max(1, min(8, len(descs) // (chk.ncpu * 6) or 1))
         for viol, st in chk.pmap(eval_chunk, descs, chunk=chunk):
             chk.add_violations(viol)
@@ -79,6 +83,7 @@ def run(chk):
         d = dict(d)
         d['descriptors'] = len(descs)
         d['cases'] = chk.cov.get('evaluations', 0) - before
+        d['worker_cpu_s'] = round(chk.cov.get('cpu_s', 0) - cpu_before, 1)
         desc[name] = d
         if descs:
             b = _builders()
@@ -90,6 +95,8 @@ def run(chk):
                                 'program': O.A.render(O._prog(case, [it]))[:600],
                                 'script': it.script})
     chk.cov['distinct_nontrivial'] = chk.cov.pop('nontrivial', 0)
+    chk.cov['cpu_s'] = round(chk.cov.get('cpu_s', 0), 1)
+    print('worker cpu seconds per family:', {k: v.get('worker_cpu_s') for k, v in desc.items()}, flush=True)
     _dump(chk)
     outcomes = chk.cov.get('_sets', {}).get('outcomes', set())
     per_family = {}
